@@ -341,9 +341,46 @@ mod put_leg {
         }
     }
 
+    fn count_files(dir: &Path, tmp: bool, n: &mut u64) {
+        if let Ok(rd) = std::fs::read_dir(dir) {
+            for e in rd.flatten() {
+                let p = e.path();
+                match e.file_type() {
+                    Ok(t) if t.is_dir() => count_files(&p, tmp, n),
+                    Ok(t) if t.is_file() => {
+                        if tmp || !p.file_name().unwrap().as_bytes().starts_with(b".sccachetmp") {
+                            *n += 1;
+                        }
+                    }
+                    _ => {}
+                }
+            }
+        }
+    }
+
     pub fn run_case(case: &Sx) -> Sx {
+        run(case, false)
+    }
+
+    /// leg `lazy`: as `put`, plus an open fault: while a request with ofault = 1 runs on a cache that has not
+    /// been opened yet, a regular file sits where the parent of the cache directory should be, so the lazy
+    /// `LruDiskCache::new` fails (ENOTDIR); it is removed again after the request.  The process runs in an
+    /// empty scratch working directory, and every observation also reports the files found there (`stray`),
+    /// whether `location()` names the configured directory, and the entry files under the configured directory.
+    pub fn run_lazy_case(case: &Sx) -> Sx {
+        run(case, true)
+    }
+
+    fn run(case: &Sx, lazy: bool) -> Sx {
         let td = tempfile::Builder::new().prefix("vh-c07p-").tempdir_in("/dev/shm").unwrap();
-        let root = td.path().join("cache");
+        let parent = td.path().join("parent");
+        let root = if lazy { parent.join("cache") } else { td.path().join("cache") };
+        let cwd = td.path().join("cwd");
+        if lazy {
+            std::fs::create_dir_all(&cwd).unwrap();
+            std::env::set_current_dir(&cwd).unwrap();
+        }
+        let mut opened = false;
         let rt = tokio::runtime::Builder::new_multi_thread().enable_all().worker_threads(1).build().unwrap();
         let cache = DiskCache::new(
             &root,
@@ -361,6 +398,13 @@ mod put_leg {
             }
             let tag = op.tag();
             let key = String::from_utf8(op.arg(1).bytes().to_vec()).unwrap();
+            let ofault = lazy && op.arg(if tag == "put" { 4 } else { 2 }).as_bool();
+            let obstacle = ofault && !opened;
+            if obstacle {
+                std::fs::write(&parent, b"in the way").unwrap();
+            } else {
+                opened = true;
+            }
             let r = catch(|| match tag.as_str() {
                 "put" => {
                     let n = op.arg(2).u64() as usize;
@@ -381,6 +425,10 @@ mod put_leg {
                 },
                 _ => "bad_op",
             });
+            if obstacle {
+                std::fs::remove_file(&parent).unwrap();
+            }
+            let r = r.map(|res| if obstacle && !matches!(res, "ok" | "hit" | "miss") { "open_err" } else { res });
             match r {
                 Ok(res) => {
                     let size = rt.block_on(cache.current_size()).unwrap().unwrap_or(0);
@@ -393,7 +441,18 @@ mod put_leg {
                     };
                     let mut ntmp = 0;
                     count_tmp(&root, &mut ntmp);
-                    out.push(Sx::L(vec![Sx::sym(res), Sx::n(size), Sx::L(index), Sx::n(ntmp)]));
+                    let mut obs = vec![Sx::sym(res), Sx::n(size), Sx::L(index), Sx::n(ntmp)];
+                    if lazy {
+                        let mut stray = 0;
+                        count_files(&cwd, true, &mut stray);
+                        let mut nroot = 0;
+                        count_files(&root, false, &mut nroot);
+                        let loc_ok = cache.location() == format!("Local disk: {:?}", root);
+                        obs.push(Sx::n(stray));
+                        obs.push(Sx::n(loc_ok as u64));
+                        obs.push(Sx::n(nroot));
+                    }
+                    out.push(Sx::L(obs));
                 }
                 Err(_) => {
                     poisoned = true;
@@ -407,8 +466,11 @@ mod put_leg {
 
 fn main() {
     vh::quiet_panics();
-    if std::env::args().nth(1).as_deref() == Some("put") {
+    let leg = std::env::args().nth(1);
+    if leg.as_deref() == Some("put") {
         vh::run_lines(put_leg::run_case);
+    } else if leg.as_deref() == Some("lazy") {
+        vh::run_lines(put_leg::run_lazy_case);
     } else {
         vh::run_lines(run_case);
     }
